@@ -30,7 +30,7 @@ ASSUMPTIONS = [
     "for types other than 00h/04h/07h/01h/05h/08h only the primary commands (INQUIRY, TEST UNIT READY, REPORT LUNS) are demanded",
     "re-attaching the same device object after its node changed type is judged only on the recognised-family clauses",
 ]
-REQUIRED_PROBES = ["reattach_other_family", "attach_fault", "followup_ok", "unknown_type"]
+REQUIRED_PROBES = ["iscsi_nonzero_lun", "reattach_other_family", "attach_fault", "followup_ok", "unknown_type"]
 
 FAMILY = {0x00: "sbc", 0x04: "sbc", 0x07: "sbc", 0x01: "ssc", 0x05: "mmc", 0x08: "smc"}
 DISC = {
@@ -60,7 +60,9 @@ def gen_dev(rng):
         t = rng.choice([0, 0, 4, 7, 1, 5, 8, 8, 5])
     else:
         t = rng.randrange(32)
-    return {"type": t, "qual": rng.choice([0, 0, 0, 1, 3, rng.randrange(8)]), "transport": rng.choice(["sgio", "iscsi"])}
+    return {"type": t, "qual": rng.choice([0, 0, 0, 1, 3, rng.randrange(8)]), "transport": rng.choice(["sgio", "iscsi"]),
+            "inq_len": rng.choice([36, 96, 96, 96, 128, 164, 255]), "lun": rng.choice([0, 0, 1, 3]),
+            "decoy_type": rng.choice([0, 1, 5, 8, 3])}
 
 
 def generate(rng, idx, tier):
@@ -92,7 +94,8 @@ def enumerated(k, tier):
     t = k % 32
     q = (k // 32) % 8
     tr = "iscsi" if k >= 256 else "sgio"
-    return {"property": ID, "config": {"devs": [{"type": t, "qual": q, "transport": tr}]},
+    return {"property": ID, "config": {"devs": [{"type": t, "qual": q, "transport": tr, "inq_len": [36, 96, 164, 255][(t + q) % 4], "lun": [0, 2][(t >> 1) & 1] if tr == "iscsi" else 0,
+                                                 "decoy_type": [0, 8, 5, 1][t % 4]}]},
             "ops": [{"op": "attach", "dev": 0, "new_facade": True}, {"op": "followup", "seed": k}, {"op": "followup", "seed": k + 1}]}
 
 
@@ -100,17 +103,28 @@ def _mk_lu(t, q, ident):
     return T.make_lu(t, q, ident)
 
 
+DECOYS = []
+
+
 def _open(spec, n):
     lu = _mk_lu(spec["type"], spec["qual"], n + 1)
+    lu.inq_len = spec.get("inq_len", 96)
     if spec["transport"] == "sgio":
         path = "/dev/sg%d" % n
         WORLD.plug(path, lu)
         SCSI, SCSIDevice, ISCSIDevice = worlds.lib()
         return SCSIDevice(path), lu
     SCSI, SCSIDevice, ISCSIDevice = worlds.lib()
-    key = ("10.0.0.%d:3260" % (n + 1), "iqn.2026-10.verif:tgt%d" % n, 0)
+    lun = spec.get("lun", 0)
+    key = ("10.0.0.%d:3260" % (n + 1), "iqn.2026-10.verif:tgt%d" % n, lun)
     WORLD.iscsi_targets[key] = lu
-    return ISCSIDevice("iscsi://%s/%s/0" % (key[0], key[1]), "iqn.2026-10.verif:init"), lu
+    if lun != 0:
+        # another logical unit of another type lives at LUN 0 of the same target: it must never be addressed
+        decoy = _mk_lu(spec.get("decoy_type", 0) if spec.get("decoy_type", 0) != spec["type"] else 3, 0, 50 + n)
+        WORLD.iscsi_targets[(key[0], key[1], 0)] = decoy
+        DECOYS.append(decoy)
+        WORLD.probe("iscsi_nonzero_lun")
+    return ISCSIDevice("iscsi://%s/%s/%d" % (key[0], key[1], lun), "iqn.2026-10.verif:init"), lu
 
 
 def opc_snapshot(opc):
@@ -162,6 +176,7 @@ def followups(dtype, seed):
 
 def execute(prog):
     WORLD.reset()
+    del DECOYS[:]
     SCSI, SCSIDevice, ISCSIDevice = worlds.lib()
     specs = copy.deepcopy(prog["config"]["devs"])
     devs, lus = [], []
@@ -190,7 +205,7 @@ def execute(prog):
                     if h.name == "/dev/sg%d" % n:
                         h.node.target = lu
             else:
-                key = ("10.0.0.%d:3260" % (n + 1), "iqn.2026-10.verif:tgt%d" % n, 0)
+                key = ("10.0.0.%d:3260" % (n + 1), "iqn.2026-10.verif:tgt%d" % n, specs[n].get("lun", 0))
                 WORLD.iscsi_targets[key] = lu
             specs[n]["retyped"] = True
             specs[n]["stale"] = True      # the facade has not looked at this device since
@@ -270,6 +285,10 @@ def execute(prog):
             else:
                 WORLD.probe("followup_ok")
             summary.append("%s:%s" % (m, kind))
+    touched = [d.dev_type for d in DECOYS if d.log]
+    if touched:
+        V.append(dict(oracle="C16.wrong-logical-unit", where="iscsi", detail="lun0",
+                      expected="commands go to the logical unit named in the URL", actual="LUN 0 of the target received %d command(s)" % sum(len(d.log) for d in DECOYS)))
     # the set selected for a device depends only on that device's type: compare with a fresh, history-free attach
     seen = {}
     for n, dtype, qual, transport, snap in attach_log:
